@@ -20,7 +20,7 @@ NoPad == <<0, 0>>
 PathScopes == {<<"global", "-">>, <<"scoped", "app1/ep1">>, <<"scoped", "app1/ep2">>}
 
 PadsFor(ps) ==
-  IF MaxLen >= 4 THEN {<<996, 0>>, <<997, 0>>, <<0, 996>>, <<498, 498>>, <<0, 997>>}
+  IF MaxLen >= 4 THEN {<<996, 0>>, <<997, 0>>, <<0, 996>>, <<498, 498>>, <<0, 997>>, <<7, 0>>, <<0, 7>>, <<30, 30>>, <<250, 3>>}
   ELSE IF ps[1] = "global" THEN {<<996, 0>>, <<997, 0>>, <<0, 996>>} ELSE {<<996, 0>>}
 
 Frames ==
